@@ -98,7 +98,12 @@ def ce_units(ctx, src):
     if [d for d in data_members if d[1] != 'value' and d[0] not in ('return',)]:
         raise ExtractionBreak('converted_endian has additional data members: %r' % data_members)
     ST = [Rule('OnStoreSt::fn(', 'M(onstore)(', count=None), Rule('OnLoadSt::fn(', 'M(onload)(', count=None)]
-    RET = [Rule('return *this;', 'return self;', count=1)]
+    # compound assignments written in terms of one another (`return (*this += -delta);`): the member call on *this is lowered to the
+    # instantiated C function of that operator (all declared up front)
+    OPN = {'+': 'add', '-': 'sub', '*': 'mul', '/': 'div', '%': 'mod', '&': 'and', '|': 'or', '^': 'xor', '<<': 'shl', '>>': 'shr'}
+    RET = [Rule(r'\(\s*\*this\s*(<<|>>|[-+*/%&|^])=\s*([^;]*?)\s*\)(?=\s*;)', lambda mo: 'M(%s_assign)(self, %s)' % (OPN[mo.group(1)], mo.group(2)), count=None, regex=True),
+           Rule(r'\*this\s*(<<|>>|[-+*/%&|^])=\s*([^;]*?)\s*;', lambda mo: 'M(%s_assign)(self, %s);' % (OPN[mo.group(1)], mo.group(2)), count=None, regex=True),
+           Rule('return *this;', 'return self;', count=None)]
     ctor_expr = u.snippet(src, ENC, r'converted_endian\(ExposedT v\)\s*:\s*value\((.*?)\)\s*\{\s*\}', group=1, rules=ST)
     u.raw('void M(ctor)(CE* self, ExposedT v)\n{\n  self->value = %s;\n}' % ctor_expr)
     u.functions.append({'file': ENC, 'cxx_header': 'converted_endian(ExposedT v) : value(...) {}', 'c_header': 'void M(ctor)(CE* self, ExposedT v)', 'line': 0})
@@ -128,6 +133,8 @@ def ce_units(ctx, src):
         u.function(src, ENC, sig, new_header=hdr, rules=ST + rules, scope=CLS)
     ops = [('+', 'add'), ('-', 'sub'), ('*', 'mul'), ('/', 'div')]
     iops = [('%', 'mod'), ('&', 'and'), ('|', 'or'), ('^', 'xor'), ('<<', 'shl'), ('>>', 'shr')]
+    u.raw(''.join('CE* M(%s_assign)(CE* self, R delta);\n' % nm for _, nm in ops) + '#if !ISFLOAT\n' +
+          ''.join('CE* M(%s_assign)(CE* self, R delta);\n' % nm for _, nm in iops) + '#endif')
     for op, nm in ops:
         u.function(src, ENC, r'converted_endian& operator%s=\(R delta\)' % re.escape(op),
                    new_header='CE* M(%s_assign)(CE* self, R delta)' % nm, rules=ST + RET, scope=CLS)
